@@ -269,6 +269,30 @@ def h_after_rejected(ctx):
     return c02.h_sequences(ctx)
 
 
+def h_concatenated(ctx):
+    """The compressed message is several complete DEFLATE streams back to back (raw, zlib-framed, mixed), each within the limit: whatever
+    the library makes of what follows the first stream, it never hands out more than the limit."""
+    n_streams = ctx.choose("streams", [2, 3, 8, 40])
+    each = ctx.choose("each_expands_to", [1000, 250000, LIMIT])
+    framing = ctx.choose("framing", ["raw", "zlib-default", "mixed"])
+    form = ctx.choose("form", ["compact", "flattened"])
+    parts = []
+    for i in range(n_streams):
+        fr = framing if framing != "mixed" else ("raw", "zlib-default")[i % 2]
+        parts.append(stream(fr, each, "constant"))
+    body = b"".join(parts)
+    t = c16.jwe_seed("dir", "oct16", "A128GCM", form, zipv="DEF")
+    tok = c16.jwe_wire(t, form, body=body)
+    d = scen.jwe_decrypt(tok, A.jkey(scen.key("oct16"), "dict"), ["dir", "A128GCM", "DEF"])
+    vs = []
+    what = f"{n_streams} {framing} streams of {each} octets each ({len(body)} compressed octets), {form}"
+    if d.ok and len(d.value[0]) > LIMIT:
+        vs.append(viol("a compressed message made of several streams is inflated beyond the limit", f"{what}: returned {len(d.value[0])} octets"))
+    return Outcome(f"concat:{'ok:' + str(min(len(d.value[0]), LIMIT + 1) > LIMIT) if d.ok else 'rej:' + d.etype}", vs, nontrivial=(n_streams, each, framing, form))
+
+
+_pcs = Part("several-streams-back-to-back", h_concatenated, split_depth=2)
+_pcs.single_bucket_ok = True
 _pa = Part("same-object-serialized-again", h_again, split_depth=2)
 _pa.single_bucket_ok = True
 PARTS = [
@@ -277,4 +301,5 @@ PARTS = [
     Part("limit-reached-at-input-offsets", h_aligned, split_depth=2, budget={"quick": 1200, "thorough": 1800}),
     _pa,
     Part("decryptions-after-a-rejected-stream", h_after_rejected, split_depth=3),
+    _pcs,
 ]
